@@ -146,7 +146,7 @@ func getProfile(name string, seed int64) *Profile {
 	return p
 }
 
-var bulkSizes = []int{0, 1, 2, 3, 7, 40, 64, 100, 150, 200, 350, 1100}
+var bulkSizes = []int{0, 1, 2, 3, 7, 40, 64, 100, 150, 200, 350, 1100, 12, 30}
 var bulkSizesBig = []int{800, 1000, 1500, 2000, 3000}
 
 func generate(p *Profile, seed int64) ([]E, *Universe) {
